@@ -177,7 +177,7 @@ Observe == /\ U.emit
            /\ ((clients = {} /\ \A a \in LeaseAddrs : leases[a] = NoId) =>
                  PrintT(<<"@@U", ToJson([names |-> U.names, ids |-> U.ids, addrs |-> U.addrs, cids |-> U.cids,
                                          leaseaddrs |-> U.leaseaddrs, w |-> U.w, maxids |-> U.maxids,
-                                         zoned |-> U.zoned])>>))
+                                         zoned |-> U.zoned, leasemacs |-> U.leasemacs])>>))
            /\ UNCHANGED vars
 
 Next == Add \/ Update \/ Remove \/ LeaseChange \/ LoadConfig \/ Observe
@@ -293,6 +293,19 @@ UZone == [
     flags |-> [n1 |-> {F(TRUE, FALSE)}, n2 |-> {F(FALSE, TRUE)}, n3 |-> {F(FALSE, FALSE)}],
     leaseaddrs |-> <<>>, leasemacs |-> {},
     addrs |-> <<5, 21, 37, 53, 22, 28>>,
+    cids  |-> << NoId >> ]
+
+\* The whole address space as one prefix (<<"net", 0, 0>>: the harness writes
+\* it 0.0.0.0/0 or ::/0) next to a narrower one, a mac, and DHCP leases that
+\* carry a registered mac, or a link-layer address of a length no registered
+\* mac can have (<<"macx", 7, 0>>).
+UMisc == [
+    w |-> 4, emit |-> TRUE, zoned |-> FALSE, maxids |-> 2,
+    names |-> <<"n1", "n2">>,
+    ids   |-> << <<"ip", 5, 0>>, <<"net", 0, 0>>, <<"net", 4, 2>>, <<"mac", 1, 0>> >>,
+    flags |-> [n1 |-> {F(TRUE, FALSE)}, n2 |-> {F(FALSE, TRUE)}],
+    leaseaddrs |-> <<5, 12>>, leasemacs |-> {<<"mac", 1, 0>>, <<"macx", 7, 0>>},
+    addrs |-> <<5, 6, 12>>,
     cids  |-> << NoId >> ]
 
 \* Small universe for the coverage (vacuity) run: three identifiers per client.
